@@ -84,6 +84,21 @@ func FamExpr(t Type, emit func(Gen)) {
 	}
 }
 
+// litClass names the size class of a literal (the compiler stores constants in 32 or 64 bits).
+func litClass(v int64) string {
+	switch {
+	case v < 0 && v >= -(1<<31):
+		return "neg32"
+	case v < 0:
+		return "neg64"
+	case v < 1<<31:
+		return "small"
+	case v < 1<<32:
+		return "bit31"
+	}
+	return "wide"
+}
+
 // wideConsts: non-negative constants representable in t beyond the small ones.
 func wideConsts(t Type) []*big.Int {
 	vw := t.W
@@ -377,16 +392,17 @@ func FamConstStore(t Type, emit func(Gen)) {
 	p := Var{Name: "p"}
 	for _, v := range lits {
 		c := UConst{T: t, V: v}
+		dt := "." + t.Src() + "." + litClass(v)
 		for k := int64(0); k < 3; k++ {
 			body := append(append([]Stmt{}, fill...), Assign{Name: "arr", Idx: Lit{V: k}, X: c}, all)
-			emit(Gen{"const-store-array", &Program{Funcs: []Func{mainFn(ab(t), []Type{t, t, t}, body)}}})
+			emit(Gen{"const-store-array" + dt, &Program{Funcs: []Func{mainFn(ab(t), []Type{t, t, t}, body)}}})
 		}
 		// in a loop over all elements but the last
 		body := append(append([]Stmt{}, fill...), For{Var: "i", From: 0, To: 2, Body: []Stmt{Assign{Name: "arr", Idx: Var{Name: "i"}, X: c}}}, all)
-		emit(Gen{"const-store-array-loop", &Program{Funcs: []Func{mainFn(ab(t), []Type{t, t, t}, body)}}})
+		emit(Gen{"const-store-array-loop" + dt, &Program{Funcs: []Func{mainFn(ab(t), []Type{t, t, t}, body)}}})
 		// under a condition
 		body = append(append([]Stmt{}, fill...), If{Cond: Bin{Op: "<", L: a, R: b}, Then: []Stmt{Assign{Name: "arr", Idx: Lit{V: 1}, X: c}}, Else: []Stmt{Assign{Name: "arr", Idx: Lit{V: 0}, X: c}}}, all)
-		emit(Gen{"const-store-array-if", &Program{Funcs: []Func{mainFn(ab(t), []Type{t, t, t}, body)}}})
+		emit(Gen{"const-store-array-if" + dt, &Program{Funcs: []Func{mainFn(ab(t), []Type{t, t, t}, body)}}})
 		for _, f := range []string{"x", "y"} {
 			body := []Stmt{
 				VarDecl{Name: "p", T: st},
@@ -395,10 +411,10 @@ func FamConstStore(t Type, emit func(Gen)) {
 				Assign{Name: "p", Field: f, X: c},
 				Return{X: []Expr{Field{X: p, Name: "x"}, Field{X: p, Name: "y"}}},
 			}
-			emit(Gen{"const-store-field", &Program{Structs: []Type{st}, Funcs: []Func{mainFn(ab(t), []Type{t, t}, body)}}})
+			emit(Gen{"const-store-field" + dt, &Program{Structs: []Type{st}, Funcs: []Func{mainFn(ab(t), []Type{t, t}, body)}}})
 		}
 		body = []Stmt{Define{Name: "x", X: a}, If{Cond: Bin{Op: "<", L: a, R: b}, Then: []Stmt{Assign{Name: "x", X: c}}}, Return{X: []Expr{Bin{Op: "+", L: Var{Name: "x"}, R: b}}}}
-		emit(Gen{"const-store-var", &Program{Funcs: []Func{mainFn(ab(t), []Type{t}, body)}}})
+		emit(Gen{"const-store-var" + dt, &Program{Funcs: []Func{mainFn(ab(t), []Type{t}, body)}}})
 	}
 }
 
@@ -422,26 +438,88 @@ func FamConstFlow(t Type, emit func(Gen)) {
 	}
 	for _, v := range lits {
 		c := UConst{T: t, V: v}
+		dt := "." + t.Src() + "." + litClass(v)
 		g := Func{Name: "g", Params: []Param{{Name: "u", T: t}}, Results: []Type{t}, Body: []Stmt{
 			If{Cond: Bin{Op: "<", L: Var{Name: "u"}, R: c}, Then: []Stmt{Return{X: []Expr{c}}}},
 			Return{X: []Expr{Var{Name: "u"}}}}}
 		h := Func{Name: "h", Params: []Param{{Name: "u", T: t}, {Name: "v", T: t}}, Results: []Type{t}, Body: []Stmt{
 			Return{X: []Expr{Bin{Op: "^", L: Bin{Op: "+", L: Var{Name: "u"}, R: Var{Name: "v"}}, R: Var{Name: "v"}}}}}}
-		one1("const-flow-return", []Type{t}, []Func{g}, []Stmt{Return{X: []Expr{Bin{Op: "+", L: Call{Fn: "g", Args: []Expr{a}}, R: b}}}})
-		one1("const-flow-argument", []Type{t}, []Func{h}, []Stmt{Return{X: []Expr{Bin{Op: "+", L: Call{Fn: "h", Args: []Expr{a, c}}, R: Call{Fn: "h", Args: []Expr{c, b}}}}}})
-		one1("const-flow-var-init", []Type{t, t}, nil, []Stmt{VarInit{Name: "x", T: t, X: c}, Define{Name: "y", X: Bin{Op: "+", L: Var{Name: "x"}, R: a}},
+		one1("const-flow-return"+dt, []Type{t}, []Func{g}, []Stmt{Return{X: []Expr{Bin{Op: "+", L: Call{Fn: "g", Args: []Expr{a}}, R: b}}}})
+		one1("const-flow-argument"+dt, []Type{t}, []Func{h}, []Stmt{Return{X: []Expr{Bin{Op: "+", L: Call{Fn: "h", Args: []Expr{a, c}}, R: Call{Fn: "h", Args: []Expr{c, b}}}}}})
+		one1("const-flow-var-init"+dt, []Type{t, t}, nil, []Stmt{VarInit{Name: "x", T: t, X: c}, Define{Name: "y", X: Bin{Op: "+", L: Var{Name: "x"}, R: a}},
 			If{Cond: Bin{Op: "<", L: b, R: c}, Then: []Stmt{Assign{Name: "x", X: b}}}, Return{X: []Expr{Var{Name: "x"}, Var{Name: "y"}}}})
 		for _, op := range cmps {
-			one1("const-flow-compare", []Type{BoolT, BoolT}, nil, []Stmt{Return{X: []Expr{Bin{Op: op, L: a, R: c}, Bin{Op: op, L: c, R: b}}}})
+			one1("const-flow-compare."+op+dt, []Type{BoolT, BoolT}, nil, []Stmt{Return{X: []Expr{Bin{Op: op, L: a, R: c}, Bin{Op: op, L: c, R: b}}}})
 		}
 		for _, op := range append(append([]string{}, arith...), "/", "%") {
-			one1("const-flow-operand", []Type{t}, nil, []Stmt{Return{X: []Expr{Bin{Op: op, L: a, R: c}}}})
+			one1("const-flow-operand."+op+dt, []Type{t}, nil, []Stmt{Return{X: []Expr{Bin{Op: op, L: a, R: c}}}})
 			if op != "/" && op != "%" {
-				one1("const-flow-operand", []Type{t}, nil, []Stmt{Return{X: []Expr{Bin{Op: op, L: c, R: b}}}})
+				one1("const-flow-operand."+op+dt, []Type{t}, nil, []Stmt{Return{X: []Expr{Bin{Op: op, L: c, R: b}}}})
 			} else {
-				one1("const-flow-operand", []Type{t}, nil, []Stmt{Return{X: []Expr{Bin{Op: op, L: c, R: Bin{Op: "|", L: b, R: one(t)}}}}})
+				one1("const-flow-operand."+op+dt, []Type{t}, nil, []Stmt{Return{X: []Expr{Bin{Op: op, L: c, R: Bin{Op: "|", L: b, R: one(t)}}}}})
 			}
 		}
+	}
+}
+
+// FamNegOps: negative literals (signed types), unary minus, compound assignments and ++/--.
+func FamNegOps(t Type, emit func(Gen)) {
+	a, b, x := Var{Name: "a"}, Var{Name: "b"}, Var{Name: "x"}
+	one1 := func(fam string, rts []Type, fs []Func, body []Stmt) {
+		emit(Gen{fam, &Program{Funcs: append(fs, mainFn(ab(t), rts, body))}})
+	}
+	// unary minus on values
+	for _, e := range []Expr{Neg{X: a}, Neg{X: Bin{Op: "+", L: a, R: b}}, Bin{Op: "-", L: b, R: Neg{X: a}}, Bin{Op: "*", L: Neg{X: a}, R: b}, Neg{X: Neg{X: a}}} {
+		one1("neg-unary", []Type{t}, nil, []Stmt{Return{X: []Expr{e}}})
+	}
+	one1("neg-unary", []Type{BoolT, BoolT}, nil, []Stmt{Return{X: []Expr{Bin{Op: "<", L: Neg{X: a}, R: b}, Bin{Op: "==", L: Neg{X: a}, R: a}}}})
+	// compound assignments
+	for _, op := range []string{"+", "-", "*", "&", "|", "^"} {
+		one1("op-assign", []Type{t, t}, nil, []Stmt{Define{Name: "x", X: a}, OpAssign{Name: "x", Op: op, X: b}, Define{Name: "y", X: x},
+			OpAssign{Name: "x", Op: op, X: UConst{T: t, V: 5 % (1 << uint(min(t.W-1, 3)))}}, If{Cond: Bin{Op: "<", L: a, R: b}, Then: []Stmt{OpAssign{Name: "x", Op: op, X: Var{Name: "y"}}}}, Return{X: []Expr{x, Var{Name: "y"}}}})
+	}
+	for _, op := range []string{"<<", ">>"} {
+		for _, c := range []int64{0, 1, int64(t.W - 1)} {
+			if c >= int64(t.W) {
+				continue
+			}
+			one1("op-assign-shift", []Type{t}, nil, []Stmt{Define{Name: "x", X: a}, OpAssign{Name: "x", Op: op, X: Lit{V: c}}, Return{X: []Expr{Bin{Op: "^", L: x, R: b}}}})
+		}
+	}
+	one1("op-assign-div", []Type{t, t}, nil, []Stmt{Define{Name: "x", X: a}, Define{Name: "y", X: a}, OpAssign{Name: "x", Op: "/", X: Bin{Op: "|", L: b, R: one(t)}},
+		OpAssign{Name: "y", Op: "%", X: Bin{Op: "|", L: b, R: one(t)}}, Return{X: []Expr{x, Var{Name: "y"}}}})
+	one1("inc-dec", []Type{t, t}, nil, []Stmt{Define{Name: "x", X: a}, Define{Name: "y", X: b}, IncDec{Name: "x", Inc: true}, IncDec{Name: "y"},
+		If{Cond: Bin{Op: "<", L: x, R: Var{Name: "y"}}, Then: []Stmt{IncDec{Name: "x", Inc: true}}, Else: []Stmt{IncDec{Name: "y"}, IncDec{Name: "y"}}}, Return{X: []Expr{x, Var{Name: "y"}}}})
+	if !t.Signed || t.W < 4 {
+		return
+	}
+	// negative literals
+	var lits []int64
+	for _, v := range []int64{-1, -5, -(1 << 7), -(1<<15 + 3), -(1 << 31), -(1<<31 + 1), -(1 << 40)} {
+		if t.W >= 64 || -v <= 1<<uint(t.W-1) {
+			lits = append(lits, v)
+		}
+	}
+	for _, v := range lits {
+		c := UConst{T: t, V: v}
+		dt := "." + t.Src() + "." + litClass(v)
+		for _, op := range append(append([]string{}, arith...), "/", "%") {
+			one1("neg-literal-operand."+op+dt, []Type{t}, nil, []Stmt{Return{X: []Expr{Bin{Op: op, L: a, R: c}}}})
+			if op == "/" || op == "%" {
+				one1("neg-literal-operand."+op+dt, []Type{t}, nil, []Stmt{Return{X: []Expr{Bin{Op: op, L: c, R: Bin{Op: "|", L: b, R: one(t)}}}}})
+			} else {
+				one1("neg-literal-operand."+op+dt, []Type{t}, nil, []Stmt{Return{X: []Expr{Bin{Op: op, L: c, R: b}}}})
+			}
+		}
+		for _, op := range cmps {
+			one1("neg-literal-compare."+op+dt, []Type{BoolT, BoolT}, nil, []Stmt{Return{X: []Expr{Bin{Op: op, L: a, R: c}, Bin{Op: op, L: c, R: b}}}})
+		}
+		one1("neg-literal-store"+dt, []Type{t, t}, nil, []Stmt{Define{Name: "x", X: a}, VarInit{Name: "y", T: t, X: c},
+			If{Cond: Bin{Op: "<", L: a, R: b}, Then: []Stmt{Assign{Name: "x", X: c}}, Else: []Stmt{Assign{Name: "y", X: b}}}, Return{X: []Expr{x, Var{Name: "y"}}}})
+		g := Func{Name: "g", Params: []Param{{Name: "u", T: t}}, Results: []Type{t}, Body: []Stmt{
+			If{Cond: Bin{Op: "<", L: Var{Name: "u"}, R: c}, Then: []Stmt{Return{X: []Expr{c}}}},
+			Return{X: []Expr{Var{Name: "u"}}}}}
+		one1("neg-literal-return"+dt, []Type{t}, []Func{g}, []Stmt{Return{X: []Expr{Bin{Op: "+", L: Call{Fn: "g", Args: []Expr{a}}, R: Call{Fn: "g", Args: []Expr{c}}}}}})
 	}
 }
 
@@ -557,6 +635,13 @@ func Statements(quick bool, emit func(Gen)) {
 	for _, t := range storeTypes {
 		FamConstStore(t, emit)
 		FamConstFlow(t, emit)
+	}
+	negTypes := []Type{Uint(8), Int(8), Int(16), Int(64)}
+	if !quick {
+		negTypes = []Type{Uint(3), Uint(8), Uint(33), Int(4), Int(8), Int(16), Int(32), Int(33), Int(40), Int(64), Int(65), Int(128)}
+	}
+	for _, t := range negTypes {
+		FamNegOps(t, emit)
 	}
 }
 
